@@ -18,6 +18,9 @@ from ..world import PtyWorld, WouldBlock
 sys.setrecursionlimit(100000)
 
 from ..world import FdWorld, SockWorld, GatedPopenWorld
+from ..budget import Hung, wall_budget, pmap, CASE_BUDGET
+
+WALL_BUDGET = 20       # seconds of wall-clock time for one read_nonblocking call (they take microseconds)
 
 # fd worlds: descriptor kind x select/poll x bytes/unicode
 FD_KINDS = ('pipe', 'pty', 'sockfd', 'fifo', 'tcp')
@@ -276,6 +279,14 @@ def weighted(rng, items, weight):
 
 
 def replay_one(args):
+    try:
+        with wall_budget(CASE_BUDGET):
+            return replay_one_(args)
+    except Hung:
+        return {'calls': [], 'events': [], 'error': 'the case did not finish within %d s (world construction / peer synchronisation)' % CASE_BUDGET}
+
+
+def replay_one_(args):
     transport, workdir, schedule, k, init_state = args
     w = None
     out = {'calls': [], 'error': None, 'events': []}
@@ -292,7 +303,8 @@ def replay_one(args):
             w.log(e='call', size=size, tmo=tmo)
             w.active = True
             try:
-                data = w.child.read_nonblocking(size, t)
+                with wall_budget(WALL_BUDGET):
+                    data = w.child.read_nonblocking(size, t)
                 res = ('data', data)
             except pexpect.EOF:
                 res = ('EOF', b'')
@@ -300,6 +312,8 @@ def replay_one(args):
                 res = ('TIMEOUT', b'')
             except WouldBlock as e:
                 res = ('BLOCK', b'')
+            except Hung:
+                res = ('HUNG', b'')          # stopped by the harness: the call does not come back
             except Exception as e:
                 res = ('ERR:' + type(e).__name__, b'')
             finally:
@@ -325,7 +339,7 @@ def replay_one(args):
             size, tmo = (cargs[0], cargs[1]) if len(cargs) > 1 else (cargs[0], 0)
             w.pos += 1
             c = one_call(size, tmo)
-            if c['kind'] == 'BLOCK':
+            if c['kind'] in ('BLOCK', 'HUNG'):
                 break
             # in unicode mode the model's units are the bytes taken from the descriptor, not the characters returned
             w.log(e='ret', kind=c['kind'], n=c['nbytes'] if uni else len(c['data']), elapsed=int(c['elapsed']))
@@ -396,11 +410,14 @@ def judge_contract(out):
             if c['tmo'] != -1:
                 # (blocked while the peer is still connected: e.g. inside a read on a descriptor that is not readable)
                 bad.append(('C05:blocks-after-hangup-without-exit' if not c['peer_open'] else 'C05:blocks-past-the-deadline', i))
+        elif c['kind'] == 'HUNG':
+            bad.append(('C05:call-did-not-return', i))
+            bad.append(('C06:read-did-not-return', i))
         elif c['kind'].startswith('ERR:'):
             bad.append(('C05:poll-raises-other-exception' if c['tmo'] == 0 else 'C04:other-exception-instead-of-eof-or-timeout', i))
             if c.get('tail'):
                 bad.append(('C06:output-not-delivered-before-eof', i))
-        if c['kind'] != 'BLOCK' and c['tmo'] != -1 and c['elapsed'] > c['tmo']:
+        if c['kind'] not in ('BLOCK', 'HUNG') and c['tmo'] != -1 and c['elapsed'] > c['tmo']:
             bad.append(('C05:returned-after-deadline', i))
         if 'sock_timeout_after' in c and c['sock_timeout_after'] != c['sock_timeout_user']:
             bad.append(('C06:socket-timeout-not-restored', i))
@@ -497,7 +514,7 @@ def run_transport(ctx, pool, transport, include_blocked=False):
         for v in vs:
             jobs.append((transport, ctx.work, s_, v, g.nodes[root]))
     t0 = time.time()
-    outs = pool.map(replay_one, jobs, chunksize=8)
+    outs = pmap(pool, replay_one, jobs, chunksize=8, timeout=1500 if quick else 7200)
     ctx.note('%s: %d inter-call states, %d single-call paths -> %d distinct schedules, %d replays on the real transport in %.0fs' % (
         transport, nstates, npaths, len(scheds), len(jobs), time.time() - t0))
     m, call_label, ret_ok = make_matcher(g, transport)
@@ -588,6 +605,7 @@ def volume_sweep(ctx):
                 runs += 1
                 got = None
                 try:
+                  with wall_budget(180):
                     if tr == 'pty':
                         c = pexpect.spawn(sys.executable, ['-c', prog % (), str(n)], maxread=mr, timeout=60, echo=False)
                         c.expect(pexpect.EOF)
@@ -614,7 +632,7 @@ def volume_sweep(ctx):
                         got = c.before
                         t.join()
                         a.close()
-                except Exception as e:
+                except (Exception, Hung) as e:
                     got = ('<%s: %s>' % (type(e).__name__, str(e)[:80])).encode()
                 if got != want:
                     first = next((i for i in range(min(len(got), len(want))) if got[i] != want[i]), min(len(got), len(want)))
@@ -633,6 +651,7 @@ def volume_sweep(ctx):
             for tr in ('pty', 'popen', 'pipe', 'socket'):
                 runs += 1
                 try:
+                  with wall_budget(180):
                     if tr == 'pty':
                         c = pexpect.spawn(sys.executable, ['-c', uprog, str(n)], maxread=mr, timeout=60, echo=False, encoding='utf-8')
                         c.expect(pexpect.EOF)
@@ -659,7 +678,7 @@ def volume_sweep(ctx):
                         got = c.before
                         t.join()
                         a.close()
-                except Exception as e:
+                except (Exception, Hung) as e:
                     got = '<%s: %s>' % (type(e).__name__, str(e)[:80])
                 if got != want:
                     first = next((i for i in range(min(len(got), len(want))) if got[i] != want[i]), min(len(got), len(want)))
